@@ -191,6 +191,14 @@ class ExcModel:
             return 'none', token
         raise AssertionError(token)
 
+    NORETURN = ('pytest.skip', 'pytest.fail', 'pytest.exit', 'pytest.xfail', 'sys.exit', 'os._exit', 'exit', 'quit')
+
+    def is_noreturn(self, call):
+        try:
+            return ast.unparse(call.func) in self.NORETURN
+        except Exception:
+            return False
+
     # -- may-raise policy ---------------------------------------------------
     def call_raises(self, call, node):
         """tokens a call expression may raise.  Overridable by rule families."""
@@ -293,6 +301,10 @@ class CFG:
         if isinstance(s, SIMPLE):
             n = self._new('stmt', s, s, frames, dup)
             self._link(frontier, n)
+            if isinstance(s, ast.Expr) and isinstance(s.value, ast.Call) and self.exc.is_noreturn(s.value):
+                # pytest.skip(), sys.exit(): never completes normally
+                n.attrs['noreturn'] = True
+                return []
             return [n]
         if isinstance(s, ast.Return):
             n = self._new('stmt', s, s, frames, dup)
@@ -474,6 +486,8 @@ class CFG:
                 return set()
             if isinstance(s, (ast.Import, ast.ImportFrom)):
                 return {('sub', 'Exception')} if getattr(exc, 'imports_raise', False) else set()
+            if n.attrs.get('noreturn'):
+                return exc.expr_raises(s, n) | {('nonexc',)}
             return exc.expr_raises(s, n)
         if n.kind == 'test':
             return exc.expr_raises(n.ast, n)
